@@ -129,6 +129,8 @@ func (t *loopTr) namedResultInit(ind string) string {
 			val = fmt.Sprintf("(List.replicate %d 0#%d)", n, k.elem().width())
 		case k.isSlice() || k == kString:
 			val = "([] : " + k.lean() + ")"
+		case k == kBig:
+			continue // stage 10: nil is not representable; bigCheck has established that it is assigned before it is used
 		default:
 			t.fail(t.fd, "a named result of type %s is not supported", o.Type())
 		}
